@@ -902,6 +902,117 @@ func Flush(w *load.World, c *core.Collector) {
 					}
 				}
 			}
+			// table-driven: the keys and values are put into a local table and one loop over the
+			// whole table writes them; leaving that loop at its end has written every row
+			rootOf := func(v ssa.Value) *ssa.Alloc {
+				for i := 0; i < 10 && v != nil; i++ {
+					switch x := v.(type) {
+					case *ssa.Alloc:
+						if sv := ssax.SingleStore(x); sv != nil {
+							switch sv.Type().Underlying().(type) {
+							case *types.Struct, *types.Array:
+								switch sv.(type) {
+								case *ssa.UnOp, *ssa.Index, *ssa.Field:
+									v = sv // a copy of (an element of) another local aggregate
+									continue
+								}
+							}
+						}
+						return x
+					case *ssa.UnOp:
+						v = x.X
+					case *ssa.FieldAddr:
+						v = x.X
+					case *ssa.Field:
+						v = x.X
+					case *ssa.IndexAddr:
+						v = x.X
+					case *ssa.Index:
+						v = x.X
+					case *ssa.Slice:
+						v = x.X
+					default:
+						return nil
+					}
+				}
+				return nil
+			}
+			tables := map[*ssa.Alloc]bool{}
+			for _, b := range fl.Blocks {
+				for _, in := range b.Instrs {
+					sto, ok := in.(*ssa.Store)
+					if !ok {
+						continue
+					}
+					ld, ok := sto.Val.(*ssa.UnOp)
+					if !ok {
+						continue
+					}
+					if fa, ok := ld.X.(*ssa.FieldAddr); ok && ssax.StructOf(fa.X.Type()) == st && fa.Field == k {
+						if _, direct := sto.Addr.(*ssa.Alloc); direct {
+							continue
+						}
+						if t := rootOf(sto.Addr); t != nil {
+							tables[t] = true
+						}
+					}
+				}
+			}
+			// a row built in a temporary and then copied into the table
+			for round := 0; round < 2; round++ {
+				for t := range tables {
+					for _, r := range *t.Referrers() {
+						ld, ok := r.(*ssa.UnOp)
+						if !ok || ld.Op != token.MUL {
+							continue
+						}
+						for _, rr := range *ld.Referrers() {
+							if sto, ok := rr.(*ssa.Store); ok && sto.Val == ssa.Value(ld) {
+								if y := rootOf(sto.Addr); y != nil {
+									tables[y] = true
+								}
+							}
+						}
+					}
+				}
+			}
+			if len(tables) > 0 {
+				for _, b := range fl.Blocks {
+					for _, in := range b.Instrs {
+						call, ok := in.(*ssa.Call)
+						if !ok || !call.Call.IsInvoke() || call.Call.Method.Name() != "Put" || len(call.Call.Args) < 1 {
+							continue
+						}
+						t := rootOf(call.Call.Args[0])
+						if t == nil || !tables[t] {
+							continue
+						}
+						// the innermost loop around the Put, complete
+						var hdr *ssa.BasicBlock
+						for _, h := range fl.Blocks {
+							if h.Dominates(b) && h != b && ssax.Reaches(b, h) {
+								back := false
+								for _, pr := range h.Preds {
+									if h.Dominates(pr) {
+										back = true
+									}
+								}
+								if back && (hdr == nil || hdr.Dominates(h)) {
+									hdr = h
+								}
+							}
+						}
+						if hdr == nil || loopOtherExit(fl, hdr) != nil {
+							continue
+						}
+						for i, sx := range hdr.Succs {
+							if !ssax.Reaches(sx, hdr) {
+								banned = append(banned, ssax.Edge{From: hdr, Succ: i})
+							}
+						}
+					}
+				}
+			}
 			bad := ""
 			for _, ex := range successExits(fl) {
 				if reachableWithoutEdges(fl, banned, ex.In.Block()) {
